@@ -980,3 +980,104 @@ def warnings_contracts(run, src):
         except (Unsupported, FunctionMissing) as u:
             run.undecide("components.%s._get_limits/post" % cls, str(u))
     return obls
+
+
+# =================================================================================================== graph helper wrappers
+def graph_helpers(run, src):
+    """_get_pmux: index of the PMux, -1 iff the system has none; _get_sources: the live Source nodes;
+    _get_topo_sort/_get_nodes pass rustworkx' answer through; _rel_update stores the three relationship tables;
+    _get_parent_name: '' for a root else the name of the first parent."""
+    obls = []
+    H = Heap()
+    ISMUX = z3.Function("isinstance_PMux", I, Bo); ISSRC = z3.Function("isinstance_Source", I, Bo)
+    jj = z3.Int("jj")
+    def mk_engine():
+        eng = Engine(src)
+        topo = Seq(H.NTOPO, lambda j: SV(H.TOPO(j), "int"), "topological_sort")
+        eng.extra_globals["rx"] = Opaque("rx", methods={"topological_sort": lambda e, g_: topo})
+        def comp(c):
+            cz = to_z(c)
+            return Opaque("comp", attrs={"_params": {"name": SV(H.NAME(cz), "name")}}, methods={"isinstance": lambda e, cls, cz=cz: ISMUX(cz) if cls == "PMux" else (ISSRC(cz) if cls == "Source" else z3.BoolVal(False))})
+        g = Opaque("g", getitem=lambda e, c: comp(c), methods={"node_indices": lambda e: topo})
+        selfobj = Opaque("self", cls="System", attrs={"_g": g, "_parents": HMap(H.parents)})
+        return eng, selfobj, topo
+    # ---- _get_pmux
+    try:
+        eng, selfobj, topo = mk_engine()
+        def thunk(e):
+            e.assume(H.NTOPO >= 0); e.assume(z3.ForAll([jj], H.TOPO(jj) >= 0))      # node indices are non-negative (rustworkx)
+            return e.call_method(selfobj, "_get_pmux", [])
+        paths = eng.explore(thunk)
+        run.functions.update(eng.inlined)
+        exists = z3.Exists([jj], z3.And(jj >= 0, jj < H.NTOPO, ISMUX(H.TOPO(jj))))
+        for pi, p in enumerate(paths):
+            if p.kind != "return":
+                obls.append({"id": "system.System._get_pmux/never-raises@p%d" % pi, "hyps": p.pc, "goal": z3.BoolVal(False), "kind": "post", "tags": ["C14", "C12"], "meta": {}}); continue
+            r = to_z(p.value)
+            k = z3.Int("kk")
+            spec = z3.If(exists, z3.Exists([k], z3.And(k >= 0, k < H.NTOPO, ISMUX(H.TOPO(k)), r == H.TOPO(k))), r == -1)
+            obls.append({"id": "system.System._get_pmux/post:index of a PMux node, -1 iff there is none@p%d" % pi, "hyps": p.pc, "goal": spec, "kind": "post", "tags": ["C14", "C12", "C16"], "meta": {}})
+            obls.append({"id": "system.System._get_pmux/canary@p%d" % pi, "hyps": p.pc, "goal": r == -1, "kind": "canary", "tags": ["C14"], "meta": {}})
+    except (Unsupported, FunctionMissing) as u:
+        run.undecide("system.System._get_pmux/post", str(u))
+    # ---- _get_sources
+    try:
+        eng, selfobj, topo = mk_engine()
+        paths = eng.explore(lambda e: (e.assume(H.NTOPO >= 0), e.call_method(selfobj, "_get_sources", []))[1])
+        run.functions.update(eng.inlined)
+        m = z3.Int("m")
+        for pi, p in enumerate(paths):
+            ok = p.kind == "return" and isinstance(p.value, FiltSeq)
+            goal = z3.And(p.value.seq.ln == H.NTOPO, to_z(p.value.seq.elem(m)) == H.TOPO(m), p.value.pred(m) == ISSRC(H.TOPO(m))) if ok else z3.BoolVal(False)
+            obls.append({"id": "system.System._get_sources/post:exactly the Source nodes, in topological order@p%d" % pi, "hyps": p.pc + [m >= 0, m < H.NTOPO], "goal": goal, "kind": "post", "tags": ["C14", "C12", "C15"], "meta": {}})
+    except (Unsupported, FunctionMissing) as u:
+        run.undecide("system.System._get_sources/post", str(u))
+    # ---- _get_parent_name
+    try:
+        eng, selfobj, topo = mk_engine()
+        n = z3.Int("n")
+        paths = eng.explore(lambda e: ([e.assume(f) for f in H.facts(n)], e.call_method(selfobj, "_get_parent_name", [SV(n, "int")]))[1])
+        run.functions.update(eng.inlined)
+        for pi, p in enumerate(paths):
+            goal = (eng.equal(p.value, SV(z3.If(H.ROOT(n), name_const(""), H.NAME(H.PA(n, 0))), "name"))) if p.kind == "return" else z3.BoolVal(False)
+            obls.append({"id": "system.System._get_parent_name/post:'' for a root, else the first parent's name@p%d" % pi, "hyps": p.pc, "goal": z3.BoolVal(goal) if isinstance(goal, bool) else goal, "kind": "post", "tags": ["C01", "C08", "C16"], "meta": {}})
+    except (Unsupported, FunctionMissing) as u:
+        run.undecide("system.System._get_parent_name/post", str(u))
+    # ---- _rel_update: called twice on the same object while the graph's answers change in between (an edit that keeps the
+    #      node / edge counts): the second call must store the NEW answers (no stale cache)
+    try:
+        eng = Engine(src)
+        calls = {"n": 0}
+        marks = {}
+        def mk(nm):
+            def f(e, r, a, k):
+                calls["n"] += 1
+                m_ = Opaque("result:%s#%d" % (nm, calls["n"])); marks.setdefault(nm, []).append(m_); return m_
+            return f
+        for nm in ("_get_parents", "_get_childs", "_get_topo_sort"):
+            eng.overrides["system.System." + nm] = mk(nm)
+        from pyvc.engine import Builtin
+        eng.extra_globals["getattr"] = Builtin("getattr", lambda e, o, name, *d: (o.attrs[name] if name in o.attrs else (d[0] if d else (_ for _ in ()).throw(PyRaise("AttributeError", name)))))
+        eng.extra_globals["hasattr"] = Builtin("hasattr", lambda e, o, name: name in o.attrs)
+        NN, NE = z3.Int("num_nodes"), z3.Int("num_edges")
+        gq = Opaque("g", methods={"num_nodes": lambda e: SV(NN, "int"), "num_edges": lambda e: SV(NE, "int"), "node_indices": lambda e: [SV(z3.Int("live0"), "int"), SV(z3.Int("live1"), "int")], "edge_list": lambda e: [(SV(z3.Int("e0a"), "int"), SV(z3.Int("e0b"), "int"))],
+                                "node_indexes": lambda e: [SV(z3.Int("live0"), "int"), SV(z3.Int("live1"), "int")]})
+        def thunk(e):
+            calls["n"] = 0; marks.clear()
+            selfobj = Opaque("self", cls="System", attrs={"_g": gq})
+            e.call_method(selfobj, "_rel_update", [])
+            e.call_method(selfobj, "_rel_update", [])
+            return dict(selfobj.attrs), {k: list(v) for k, v in marks.items()}
+        paths = eng.explore(thunk)
+        run.functions.update(eng.inlined)
+        for pi, p in enumerate(paths):
+            ok = False
+            if p.kind == "return":
+                attrs, mk_ = p.value
+                ok = all(len(mk_.get(nm, [])) == 2 for nm in ("_get_parents", "_get_childs", "_get_topo_sort")) and \
+                    attrs.get("_parents") is mk_["_get_parents"][1] and attrs.get("_childs") is mk_["_get_childs"][1] and attrs.get("_topo_nodes") is mk_["_get_topo_sort"][1]
+            obls.append({"id": "system.System._rel_update/post:relationship tables rebuilt from the graph on every call (no stale cache)@p%d" % pi, "hyps": p.pc, "goal": z3.BoolVal(bool(ok)), "kind": "post", "tags": ["C01", "C16", "C14"], "meta": {}})
+    except (Unsupported, FunctionMissing) as u:
+        run.undecide("system.System._rel_update/post", str(u))
+    run.assumed.add("rustworkx.topological_sort / node_indices: every live node exactly once, indices >= 0")
+    return obls
